@@ -231,7 +231,7 @@ class Model:
                     self.env.update(keep)
                 self.handler_calls.append(e.args[0])
                 mode, rid = st['on-error']
-                omitted = 'omit' in st
+                omitted = 'omit' in st or getattr(node, 'model_omit', False)
                 if not omitted:
                     self.emit('<%s%s>' % (node.tag, ''.join(' %s="%s"' % kv for kv in node.statics)))
                 v = self.f(rid)
